@@ -5,6 +5,8 @@ type nat =
 | O
 | S of nat
 
+val option_map : ('a1 -> 'a2) -> 'a1 option -> 'a2 option
+
 val fst : ('a1 * 'a2) -> 'a1
 
 val snd : ('a1 * 'a2) -> 'a2
@@ -18,7 +20,11 @@ type comparison =
 | Lt
 | Gt
 
+val compOpp : comparison -> comparison
+
 val add : nat -> nat -> nat
+
+val sub : nat -> nat -> nat
 
 type positive =
 | XI of positive
@@ -28,6 +34,11 @@ type positive =
 type n =
 | N0
 | Npos of positive
+
+type z =
+| Z0
+| Zpos of positive
+| Zneg of positive
 
 module Nat :
  sig
@@ -48,6 +59,10 @@ module Coq_Pos :
  sig
   val succ : positive -> positive
 
+  val add : positive -> positive -> positive
+
+  val add_carry : positive -> positive -> positive
+
   val pred_double : positive -> positive
 
   type mask = Pos.mask =
@@ -64,6 +79,8 @@ module Coq_Pos :
   val sub_mask : positive -> positive -> mask
 
   val sub_mask_carry : positive -> positive -> mask
+
+  val mul : positive -> positive -> positive
 
   val size : positive -> positive
 
@@ -86,7 +103,11 @@ module N :
 
   val double : n -> n
 
+  val add : n -> n -> n
+
   val sub : n -> n -> n
+
+  val mul : n -> n -> n
 
   val compare : n -> n -> comparison
 
@@ -121,9 +142,26 @@ val ascii_of_N : n -> char
 
 val ascii_of_nat : nat -> char
 
+val n_of_digits : bool list -> n
+
+val n_of_ascii : char -> n
+
+val nat_of_ascii : char -> nat
+
 val map : ('a1 -> 'a2) -> 'a1 list -> 'a2 list
 
 val forallb : ('a1 -> bool) -> 'a1 list -> bool
+
+module Z :
+ sig
+  val opp : z -> z
+
+  val compare : z -> z -> comparison
+
+  val ltb : z -> z -> bool
+
+  val of_N : n -> z
+ end
 
 val eqb0 : char list -> char list -> bool
 
@@ -146,6 +184,8 @@ type 'a result =
 | OK of 'a
 | Error of err
 
+val bind : 'a1 result -> ('a1 -> 'a2 result) -> 'a2 result
+
 val err_name : err -> char list
 
 val mem_str : char list -> char list list -> bool
@@ -158,7 +198,17 @@ val dec_N_fuel : nat -> n -> char list -> char list
 
 val dec_N : n -> char list
 
+val dec_Z : z -> char list
+
 val dec_nat : nat -> char list
+
+val is_digit : char -> bool
+
+val parse_N_acc : char list -> n -> n option
+
+val parse_N : char list -> n option
+
+val parse_Z : char list -> z option
 
 type sexp =
 | SAtom of char list
@@ -181,6 +231,10 @@ val d_str : sexp -> char list option
 val d_list : (sexp -> 'a1 option) -> sexp list -> 'a1 list option
 
 val d_strs : sexp -> char list list option
+
+val d_Z : sexp -> z option
+
+val d_bool : sexp -> bool option
 
 val bad_input : sexp
 
@@ -258,5 +312,138 @@ val builtin_names : (char list * char list) list
 val documented : char list list
 
 val math_env : menv
+
+val compare_operations : (char list * char list) list
+
+val known_unary_operators : (char list * char list) list
+
+val known_binary_operators : (char list * char list) list
+
+val type_priority : (char list * z) list
+
+val accumulator_types : char list list
+
+type ctype =
+| TBool
+| TInt
+| TFloat
+| TDouble
+| TOther of char list
+
+val ctype_name : ctype -> char list
+
+val ctype_of_name : char list -> ctype
+
+val ctype_eqb : ctype -> ctype -> bool
+
+type cexpr =
+| ELeaf of char list
+| EInt of z
+| EBool of bool
+| EBin of char list * cexpr * cexpr
+| EUn of char list * cexpr
+| EPow of cexpr * cexpr
+| ECast of char list * cexpr
+
+val show : cexpr -> char list
+
+type rep = { r_expr : cexpr; r_ty : ctype }
+
+type pybinop =
+| Add
+| Sub
+| Mult
+| Div
+| Mod
+| Pow
+| FloorDiv
+| OtherBin of char list
+
+val pybinop_name : pybinop -> char list
+
+val is_Div : pybinop -> bool
+
+val is_Pow : pybinop -> bool
+
+type pyunop =
+| UAdd
+| USub
+| Not
+| OtherUn of char list
+
+val pyunop_name : pyunop -> char list
+
+type pycmp =
+| Lt0
+| LtE
+| Gt0
+| GtE
+| Eq0
+| NotEq
+| OtherCmp of char list
+
+val pycmp_name : pycmp -> char list
+
+val assoc_s : char list -> (char list * 'a1) list -> 'a1 option
+
+val priority_of : ctype -> z option
+
+val best_of : ctype -> z -> ctype list -> ctype
+
+val most_accurate_type : ctype list -> ctype result
+
+val visit_special_BinOp : pybinop -> rep -> rep -> rep result
+
+val visit_BinOp : pybinop -> rep -> rep -> rep result
+
+val visit_UnaryOp : pyunop -> rep -> rep result
+
+val visit_Compare : pycmp -> rep -> rep -> rep result
+
+val visit_Constant_int : z -> rep
+
+val visit_Constant_bool : bool -> rep
+
+val set_var_rhs : ctype -> rep -> cexpr
+
+type ifexp = { i_ty : ctype; i_test : cexpr; i_then : cexpr; i_else : cexpr }
+
+val visit_IfExp : rep -> rep -> rep -> ifexp
+
+val check_accumulator_type : ctype -> bool
+
+type agg = { a_ty : ctype; a_init : cexpr; a_update : cexpr }
+
+val aggregate_type : ctype -> ctype -> ctype result
+
+val call_Aggregate : char list -> rep -> (rep -> rep result) -> agg result
+
+type aexpr =
+| ALeaf of char list * ctype
+| AInt of z
+| ABool of bool
+| ABin of pybinop * aexpr * aexpr
+| AUn of pyunop * aexpr
+| ACmp of pycmp * aexpr * aexpr
+
+val translate : aexpr -> rep result
+
+val d_binop : char list -> pybinop
+
+val d_unop : char list -> pyunop
+
+val d_cmp : char list -> pycmp
+
+val d_aexpr : sexp -> aexpr option
+
+val s_rep : rep -> sexp
+
+val run_translate : sexp -> sexp
+
+val run_ifexp : sexp -> sexp
+
+val subst_acc : char list -> ctype -> aexpr -> aexpr
+
+val run_aggregate : sexp -> sexp
 
 val dispatch : char list -> sexp -> sexp
